@@ -102,7 +102,9 @@ CHECKS.update({
  "C14": dict(
     text="Theorems (any instance): one reward step makes both diagnostics follow the successor picked by the reward step (Player 1/2), "
          "weighted sums for probabilistic states, Player 2's reward diagnostic ranges over its 6-digit reachability strategy, seeded from "
-         "reachability. The end-to-end equality with the induced chain is REFUTED on the model (C14_stale_diagnostic_refuted, known finding K5: a "
+         "reachability; residual form end to end on exact rationals (C14_diagnostics_consistent: when solve returns, expected reward and both "
+         "diagnostics satisfy the step equations on the conditioned rows up to 1e-6 at every state; the check evaluates this predicate on the "
+         "implementation's output). The end-to-end equality with the induced chain is REFUTED on the model (C14_stale_diagnostic_refuted, known finding K5: a "
          "player state whose final strategy never reaches a final state keeps a stale value); the check prints it as KNOWN-FINDING and the "
          "oracle skips exactly the states whose induced chain passes through such a state. Correspondence bit-exact on both diagnostic "
          "vectors; induced-chain oracle on guarded families.",
